@@ -285,6 +285,15 @@ func init() {
 		}
 		return &TimeV{Inst: smt.BVAdd(base, smt.Ite(x.UTC, smt.BV(0, 64), shift)), UTC: x.UTC, Clock: x.Clock}
 	}
+	models["(time.Time).AppendFormat"] = func(in *Interp, fn *ssa.Function, a []Value) Value {
+		x := timeArg(in, a[0])
+		lt := termArg(in, a[2])
+		if !lt.Const {
+			in.end("unmodelled", "time.AppendFormat with symbolic layout at %s", in.where())
+		}
+		f := smt.UF("tformat_"+layoutID(lt.Str), []string{"(_ BitVec 64)", "Bool"}, &smt.Term{K: smt.KStr}, x.Inst, x.UTC)
+		return in.appendOp(a[1], in.SymBytesOfStr(f), fn.Signature.Params().At(0).Type())
+	}
 	models["(time.Time).Sub"] = func(in *Interp, fn *ssa.Function, a []Value) Value {
 		x, y := timeArg(in, a[0]), timeArg(in, a[1])
 		return smt.BVSub(x.Inst, y.Inst)
